@@ -22,7 +22,19 @@ MAX_DISJUNCTS = 256
 
 
 def _kill(d, var):
-    return frozenset(f for f in d if f[1] != var)
+    # ('boolof', b, text, subject): `b` holds the truth value of a test of `subject`; dies with either name
+    return frozenset(f for f in d if f[1] != var and not (f[0] == 'boolof' and f[3] == var))
+
+
+def _test_subject(t):
+    """the local name a simple test is about (`isinstance(x, K)`, `x is None`, `x is not None`, `not <such>`), else None"""
+    while isinstance(t, ast.UnaryOp) and isinstance(t.op, ast.Not):
+        t = t.operand
+    if isinstance(t, ast.Call) and dotted(t.func) == 'isinstance' and len(t.args) == 2 and isinstance(t.args[0], ast.Name):
+        return t.args[0].id
+    if isinstance(t, ast.Compare) and len(t.ops) == 1 and isinstance(t.left, ast.Name) and isinstance(t.ops[0], (ast.Is, ast.IsNot)) and isinstance(t.comparators[0], ast.Constant) and t.comparators[0].value is None:
+        return t.left.id
+    return None
 
 
 def _classes(e):
@@ -33,6 +45,7 @@ class Guard:
     def __init__(self, cfg: CFG, lat: ExcLattice, *, edge_ok=None):
         self.cfg = cfg
         self.lat = lat
+        self._tests = {}
         self.state = forward(cfg, frozenset({frozenset()}), self._transfer, self._join, edge_ok=edge_ok)
 
     @staticmethod
@@ -72,7 +85,14 @@ class Guard:
             var = test.id
             if ('true' if not truth else 'false', var) in d:
                 return None
-            return d | {('true' if truth else 'false', var)}
+            d = d | {('true' if truth else 'false', var)}
+            # `failed = isinstance(y, Exception)` ... `if failed:` -- the flag stands for the test it was computed from
+            for f in list(d):
+                if f[0] == 'boolof' and f[1] == var and f[2] in self._tests:
+                    d = self._assume(d, self._tests[f[2]], truth)
+                    if d is None:
+                        return None
+            return d
         if isinstance(test, ast.Call) and dotted(test.func) == 'isinstance' and len(test.args) == 2 and isinstance(test.args[0], ast.Name):
             var = test.args[0].id
             ks = _classes(test.args[1])
@@ -144,6 +164,13 @@ class Guard:
             if isinstance(v, (ast.List, ast.Tuple, ast.Dict, ast.Set, ast.ListComp, ast.JoinedStr)):
                 return d | {('notnone', var), ('neg', var, 'BaseException'), ('container', var)}
             if not isinstance(v, ast.Name):
+                subj = _test_subject(v)
+                if subj is not None and subj != var:
+                    from .loader import norm_text
+
+                    txt = norm_text(v)
+                    self._tests[txt] = v
+                    return d | {('derived', var), ('boolof', var, txt, subj)}
                 # computed from something else (element of a result, attribute, user function result):
                 # no longer one of the tracked exception-carrying message values
                 return d | {('derived', var)}
